@@ -1,36 +1,9 @@
 ----------------------------- MODULE TraceThreads -----------------------------
-(***************************************************************************)
-(* Trace validation of concurrent executions (C14): each event is one      *)
-(* concurrent run of a group of calls under the deterministic scheduler:   *)
-(*   init  - shared locations and their values before the run              *)
-(*   log   - the accesses in the order they happened (sequence numbers are *)
-(*           assigned under the scheduler's lock)                          *)
-(*   outs  - what each call returned / raised;  solo - what it does alone  *)
-(* The run must be a behaviour of the Threads model: a read returns the    *)
-(* last value written (or the initial one), and - the property itself -    *)
-(* every call gives its solo outcome.                                      *)
-(***************************************************************************)
-EXTENDS Naturals, Sequences, FiniteSets, TLC, Json, IOUtils
+(* Trace specification: one step per recorded event, total verdicts (operators in JudgeThreads). *)
+EXTENDS JudgeThreads
 
 Trace == JsonDeserialize(IOEnv.VERIF_TRACE)
 VARIABLE l
-
-LastWrite(log, n, loc) ==
-    LET ws == {i \in 1..(n - 1) : log[i].k = "W" /\ log[i].loc = loc}
-    IN  IF ws = {} THEN 0 ELSE CHOOSE i \in ws : \A j \in ws : j <= i
-InitVal(init, loc) == IF \E i \in 1..Len(init) : init[i][1] = loc
-                      THEN init[CHOOSE i \in 1..Len(init) : init[i][1] = loc][2] ELSE "?"
-MemoryOK(e) ==
-    \A n \in 1..Len(e.log) :
-        e.log[n].k = "R" =>
-            LET w == LastWrite(e.log, n, e.log[n].loc)
-            IN  e.log[n].val = (IF w = 0 THEN InitVal(e.init, e.log[n].loc) ELSE e.log[w].val)
-
-RunOutcome(e) ==
-    IF e.stuck THEN "ok"                               \* infeasible schedule: not a violation
-    ELSE IF ~MemoryOK(e) THEN "read-did-not-return-last-write"
-    ELSE IF \E t \in 1..Len(e.outs) : e.outs[t] # e.solo[t] THEN "call-differs-from-solo"
-    ELSE "ok"
 
 Init == l = 1
 Next ==
